@@ -1099,6 +1099,35 @@ def _check_flush(ctx, cls, sn):
 
 
 # ====================================================================== D2 / D3: stream.py
+def _dict_dispatch(repo, fi, call):
+    """`V()` where V is a local bound once to `{'tok': DecoderClass, ...}.get(E[, None])` / `{...}[E]`:
+    ({token: class qual}, E, total) - total is False for the subscript form (KeyError on other tokens)."""
+    if not (isinstance(call, ast.Call) and isinstance(call.func, ast.Name) and not call.args and not call.keywords):
+        return None
+    ds = [d for d in U.local_defs(fi.node).get(call.func.id, [])]
+    if len(ds) != 1 or ds[0][1] != 'assign' or ds[0][0] is None:
+        return None
+    v = ds[0][0]
+    table = key = None
+    total = True
+    if isinstance(v, ast.Call) and isinstance(v.func, ast.Attribute) and v.func.attr == 'get' and isinstance(v.func.value, ast.Dict) \
+            and 1 <= len(v.args) <= 2 and (len(v.args) == 1 or (isinstance(v.args[1], ast.Constant) and v.args[1].value is None)):
+        table, key = v.func.value, v.args[0]
+    elif isinstance(v, ast.Subscript) and isinstance(v.value, ast.Dict):
+        table, key, total = v.value, v.slice, False
+    if table is None:
+        return None
+    out = {}
+    for k, val in zip(table.keys, table.values):
+        if not (isinstance(k, ast.Constant) and isinstance(k.value, str)):
+            return None
+        ci = repo.resolve_class_expr(fi.module, val)
+        if ci is None or ci.module.name != DEC:
+            return None
+        out[k.value] = ci.qual
+    return out, key, total
+
+
 def _decoder_field(ctx, stream_cls):
     """(field name, setup FuncInfo): the Stream field that holds the decoder object."""
     repo = ctx.repo
@@ -1110,6 +1139,8 @@ def _decoder_field(ctx, stream_cls):
             if isinstance(value, ast.Call):
                 ci = repo.resolve_class_expr(m.module, value.func)
                 if ci is not None and ci.module.name == DEC:
+                    found.append((field, m))
+                elif _dict_dispatch(repo, m, value) is not None:
                     found.append((field, m))
     if not found:
         raise AnalysisError('no method of %s installs a wpull.decompression decoder' % stream_cls.qual)
@@ -1133,8 +1164,30 @@ def _check_encoding_table(ctx, setup, field):
     # abstractly; for a token t the leaf consistent with "value == t" is the one whose order/membership atoms on
     # string constants agree with t (so if/elif order, inverted ifs and `in (...)` spellings do not matter).
     from ..dtable import Interp as _Interp, Unsupported as _Unsupported
+    dd = None
+    for st, v in stores:
+        d_ = _dict_dispatch(repo, setup, v) if isinstance(v, ast.Call) else None
+        if d_ is not None:
+            dd = d_
+    if dd is not None:
+        # table form: the mapping is read off the dict literal; every other token gives None through .get()
+        mapping, key_expr, total = dd
+        for tok in sorted(set(mapping) | set(ENCODINGS) | {'identity-or-anything-else'}):
+            want = ENCODINGS.get(tok)
+            got = mapping.get(tok)
+            label = 'Content-Encoding %r -> %s' % (tok, want.split(':')[1] if want else 'no decoder')
+            if tok in REQUIRED_ENCODINGS and got is None:
+                ck.bad('C19-D2', where, label, 'no entry selects a decoder for Content-Encoding %r: such bodies are stored undecoded' % tok, setup.loc())
+            else:
+                ok = got == want or (tok in ENCODINGS and tok not in REQUIRED_ENCODINGS and got is None)
+                ck.expect(ok and total, 'C19-D2', where, label,
+                          'Content-Encoding %r installs %s (expected %s)%s' % (tok, got, want or 'no decoder', '' if total else '; other values raise KeyError'),
+                          setup.loc())
+        enc_exprs.append(key_expr)
+        # the decoder is constructed only when the lookup gave a class, and the field is None otherwise
+        leaves = None
     try:
-        leaves = _Interp(repo, setup, rename=False).leaves()
+        leaves = _Interp(repo, setup, rename=False).leaves() if dd is None else []
     except _Unsupported as e:
         ck.bad('C19-D2', where, 'Content-Encoding table', 'the decoder set-up is outside the decision-table language: %s' % e, setup.loc())
         leaves = []
@@ -1150,7 +1203,7 @@ def _check_encoding_table(ctx, setup, field):
                     consts |= set(ast.literal_eval(k[2]))
                 except Exception:
                     pass
-    tokens = sorted({t for t in consts if isinstance(t, str)} | set(ENCODINGS) | {'identity-or-anything-else'})
+    tokens = sorted({t for t in consts if isinstance(t, str)} | set(ENCODINGS) | {'identity-or-anything-else'}) if dd is None else []
 
     def consistent(val, tok):
         for k, v in val.items():
@@ -1198,7 +1251,7 @@ def _check_encoding_table(ctx, setup, field):
                       'Content-Encoding %r installs %s (expected %s): the body is decoded with the wrong format / a decoder is applied to '
                       'an identity body' % (tok, sorted(str(x) for x in got), want or 'no decoder'), setup.loc())
     # the expression compared against the tokens
-    for n in walk_no_nested(fn):
+    for n in (walk_no_nested(fn) if dd is None else []):
         if isinstance(n, ast.Compare):
             keys, enc = _enc_keys(n)
             if keys is None and len(n.ops) == 1 and isinstance(n.ops[0], (ast.NotEq, ast.NotIn)):
@@ -1377,6 +1430,28 @@ def _check_reader(ctx, fi, reader_names, dec_name, flush_name):
         ck.expect(ok, 'C19-D2', where, '%s.write(<result of %s>)' % (file_name, cons),
                   'the decoded bytes of a read are not written to the file on every path (something else, or nothing, is written)',
                   fi.loc(c), path=describe_path(p) if p else None)
+
+    # ---- the reader's control flow never depends on what the decoder returned: a piece of compressed data may decode to
+    #      nothing (header bytes, a block still incomplete), so "empty output" says nothing about the end of a chunk or body
+    for n, c in dec_nodes:
+        rname = None
+        if isinstance(n.stmt, ast.Assign) and len(n.stmt.targets) == 1 and isinstance(n.stmt.targets[0], ast.Name):
+            rname = n.stmt.targets[0].id
+        if rname is None:
+            continue
+        redef = [m for v, kind, st in defs.get(rname, []) if kind != 'param' and st is not n.stmt for m in cfg.nodes_of(st)]
+        for t in [m for m in cfg.nodes if m.kind in ('if', 'while')]:
+            if not any(isinstance(x, ast.Name) and x.id == rname for x in ast.walk(t.stmt.test)):
+                continue
+            leaves = any(isinstance(x, (ast.Break, ast.Return, ast.Continue, ast.Raise)) for b in t.stmt.body + t.stmt.orelse for x in ast.walk(b)) \
+                or t.kind == 'while'
+            if not leaves:
+                continue
+            p = cfg.find_path(n, lambda m, t=t: m is t, edge_ok=F.normal, stop=lambda m: any(m is r for r in redef))
+            ck.expect(p is None, 'C19-D2', where, 'no loop exit depends on the output of %s' % norm_text(c),
+                      '`%s` tests the decoder\'s output to leave or continue the read loop: a read whose bytes decode to nothing (a gzip '
+                      'header, a split block) is taken for the end of the chunk / body' % norm_text(t.stmt.test)[:60], fi.loc(t.stmt),
+                      path=describe_path(p) if p else None)
 
     # ---- flush at end of body
     if not flush_nodes:
